@@ -233,6 +233,13 @@ def flatten(j):
             t = b['term']
             if t and t.get('inlined_call'):
                 inlined_in.setdefault(t['inlined_call'], nf.get('root') if nf['kind'] == 'Closure' else nf['name'])
+    def final_host(h):
+        seen = set()
+        while h in helpers and h in inlined_in and h not in seen:
+            seen.add(h)
+            h = inlined_in[h]
+        return h
+    inlined_in = dict((k, final_host(v)) for k, v in inlined_in.items())
     for nf in out_fns:
         if nf['name'] in helpers:
             nf['helper'] = True
